@@ -26,7 +26,7 @@ def bounds(tier):
     return {
         "n_max": 6 if tier == "quick" else 10,
         "T_max": 7 if tier == "quick" else 11,
-        "n_sub": [1, 2, 3, 4] if tier == "quick" else [1, 2, 3, 4, 5, 7],
+        "n_sub": [0, 1, 2, 3, 4] if tier == "quick" else [0, 1, 2, 3, 4, 5, 7],
         "pytree_shapes": ["array", "tuple2", "dict_nested"],
     }
 
@@ -341,7 +341,7 @@ def unit_repeated(u, rec):
             rec.dim("n_sub", n_sub)
             rs = ex.RepeatedStepper(inner, n_sub)
             # attribute bookkeeping
-            rec.check(abs(float(rs.dt) - n_sub * float(inner.dt)) <= 1e-15 * n_sub, f"C14/repeated/attr/dt", "effective dt is not n*dt",
+            rec.check(abs(float(rs.dt) - n_sub * float(inner.dt)) <= 1e-15 * max(n_sub, 1), f"C14/repeated/attr/dt", "effective dt is not n*dt",
                       fam=fam, n_sub=n_sub, got=float(rs.dt))
             rec.check((rs.num_spatial_dims, rs.num_points, rs.num_channels, float(rs.domain_extent), float(rs.dx)) ==
                       (D, N, C, float(inner.domain_extent), float(inner.dx)), "C14/repeated/attr/shape",
@@ -366,7 +366,7 @@ def unit_repeated(u, rec):
                     else:
                         got = np.asarray(rs.step_fourier(ex.fft(sj, num_spatial_dims=D)))
                         err = np.max(np.abs(got - np.asarray(model_hat))) / (N ** D)
-                    rec.close(err, 1e-11 * scale * n_sub, f"C14/repeated/{entry}/{fam}",
+                    rec.close(err, 1e-11 * scale * max(n_sub, 1), f"C14/repeated/{entry}/{fam}",
                               "RepeatedStepper differs from n applications of the inner stepper",
                               order=order, n_sub=n_sub, state=si)
                     rec.count(traces=1)
